@@ -4,6 +4,7 @@
 package wctl
 
 import (
+	"os"
 	"testing"
 	"time"
 
@@ -11,13 +12,21 @@ import (
 )
 
 func TestWorld(t *testing.T) {
-	hc.Main(t, &hc.World{
+	w := &hc.World{
 		Name:         "W-ctl",
 		Run:          run,
 		PreemptMeans: []int{0, 0, 20, 100, 500},
-		MaxSteps:     30_000_000,
+		MaxSteps:     5_000_000,
 		MaxSimTime:   12 * time.Hour,
-	})
+	}
+	if os.Getenv("VERIF_PROP") == "C28" {
+		// C28 runs are long in simulated time (poll cycles, minutes of waiting for windows to
+		// pass) and the property is about inputs, not interleavings: coarser preemption keeps
+		// the choice lists (and the minimiser's work) short
+		w.PreemptMeans = []int{0, 0, 0, 300, 2000}
+		w.MaxSteps = 3_000_000
+	}
+	hc.Main(t, w)
 }
 
 func run(prop string) {
